@@ -321,6 +321,9 @@ func (x *exec) defaultCall(s *State, key string, args []Value, sig *types.Signat
 		}
 		x.havocReachableT(s, a, pt)
 	}
+	// closures handed to a function whose body is not entered may be called by
+	// it: the captured variables they WRITE hold arbitrary values afterwards
+	x.havocClosureCaptures(s, args)
 	before := s.alloc
 	na := e.C.Fresh("alloc.ext", Int)
 	na.AddFact(e.C.Le(s.alloc, na))
@@ -856,6 +859,41 @@ func onlyLoaded(fn *ssa.Function, fv *ssa.FreeVar) bool {
 		}
 	}
 	return true
+}
+
+// havocClosureCaptures: see defaultCall. Transitive: a closure that only reads
+// a captured function variable may call THAT closure, which may write its own
+// captures (tor.Range wraps its argument in another closure for sync.Map.Range).
+func (x *exec) havocClosureCaptures(s *State, args []Value) {
+	seen := map[*Cell]bool{}
+	var rec func(v Value, depth int)
+	rec = func(v Value, depth int) {
+		f, ok := v.(FuncV)
+		if !ok || f.Fn == nil || depth > 4 {
+			return
+		}
+		for bi, b := range f.Bind {
+			pv, ok := b.(PtrV)
+			if !ok || pv.Kind != PCell || pv.Cell == nil || seen[pv.Cell] {
+				continue
+			}
+			cur, has := s.cells[pv.Cell]
+			if !has {
+				continue
+			}
+			if bi < len(f.Fn.FreeVars) && onlyLoaded(f.Fn, f.Fn.FreeVars[bi]) {
+				// read only: but if it holds a closure, that one may be called
+				rec(cur, depth+1)
+				continue
+			}
+			seen[pv.Cell] = true
+			rec(cur, depth+1)
+			s.cells[pv.Cell] = x.e.fresh(pv.Cell.T, pv.Cell.Name+"~cb", s)
+		}
+	}
+	for _, a := range args {
+		rec(a, 0)
+	}
 }
 
 func (x *exec) havocShared(s *State) {
